@@ -620,11 +620,11 @@ def body(run, proof_ok):
     cases = [c for _, c in suite]
     family = result_list_cases(run.rng, None if run.thorough() else 44)
     cases += family
-    classes = odd_field_cases() + raw_cases() + flag_sweep(run.rng, run.thorough())
+    classes = odd_field_cases() + raw_cases() + ctor_cases() + flag_sweep(run.rng, run.thorough())
     cases += classes
     cases += [failgen.gen_case(run.rng) for _ in range(n_typed)]
     cases += [gen_opaque(run.rng, k) for k in range(n_opaque)]
-    run.log("cases: %d suite, %d result lists, %d odd-field/raw/flag-sweep, %d typed, %d opaque"
+    run.log("cases: %d suite, %d result lists, %d odd-field/raw/ctor/flag-sweep, %d typed, %d opaque"
             % (len(suite), len(family), len(classes), n_typed, n_opaque))
     obs, layouts = [], []
     chunk = 600
@@ -724,7 +724,8 @@ def body(run, proof_ok):
         "result_list_family": {"cases": len(family), "of": len(result_list_family()),
                                "what": "rest result lists of 1..4 values over three types, unnamed / named / grouped"},
         "deterministic_classes": {"odd_field_names": len(odd_field_cases()), "raw_with_several_outputs": len(raw_cases()),
-                                  "flag_value_sweep": len(classes) - len(odd_field_cases()) - len(raw_cases()),
+                                  "map_shootnew_damaged_constructors": len(ctor_cases()),
+                                  "flag_value_sweep": len(classes) - len(odd_field_cases()) - len(raw_cases()) - len(ctor_cases()),
                                   "flag_value_sweep_full": sum(len(HOSTILE) for fl in sum(STRING_FLAGS.values(), [])),
                                   "hostile_values": HOSTILE},
         "coverage_suite": {"cases": len(suite),
@@ -920,6 +921,69 @@ def odd_field_cases():
         mk("map", ["map", "-path=../dest", "-type=HoldsOdd"] + flags, [odd, holds], dodd, unc=["HoldsOdd"])
         mk("map", ["map", "-path=../dest", "-type=User"] + flags, [inner, user], dodd, unc=["User"])
         mk("map", ["map", "-path=../dest", "-type=Cnt"] + flags, [cnt], dodd, unc=["Cnt"])
+    return out
+
+
+# ------------------------------------------------- map over shoot-new types with damaged constructors
+
+def ctor_cases():
+    """`map` where the source and/or the destination type carries the ShootNew() marker (only then parseCtors looks at the
+    functions of the package) and the package holds a func named New<Type> of every damaged shape: no result, `()`, two
+    results, a value result, a foreign result, no parameter, unnamed / grouped / variadic / blank parameters, a method
+    instead of a func, a generic func, without body, declared twice"""
+    T = F.tid
+    PT = [F.Param([], F.tstar(T("T")))]
+    ok_body = {"text": "\treturn &T{}\n"}
+    shapes = {
+        "noresult": dict(params=[F.Param(["id"], T("int"))], results=None, body={"text": ""}),
+        "emptyresult": dict(params=[F.Param(["id"], T("int"))], results=[], body={"text": ""}),
+        "noresult_noparams": dict(params=[], results=None, body={"text": ""}),
+        "noresult_nobody": dict(params=[F.Param(["id"], T("int"))], results=None, body=None),
+        "tworesults": dict(params=[F.Param(["id"], T("int"))], results=[F.Param([], F.tstar(T("T"))), F.Param([], T("error"))],
+                           body={"text": "\treturn &T{}, nil\n"}),
+        "grouped_results": dict(params=[F.Param(["id"], T("int"))], results=[F.Param(["a", "b"], F.tstar(T("T")))],
+                                body={"text": "\treturn nil, nil\n"}),
+        "valueresult": dict(params=[F.Param(["id"], T("int"))], results=[F.Param([], T("T"))], body={"text": "\treturn T{}\n"}),
+        "otherresult": dict(params=[F.Param(["id"], T("int"))], results=[F.Param([], F.tstar(T("int")))], body={"text": "\treturn nil\n"}),
+        "noparams": dict(params=[], results=PT, body=ok_body),
+        "unnamed": dict(params=[F.Param([], T("int")), F.Param([], T("string"))], results=PT, body=ok_body),
+        "blank": dict(params=[F.Param(["_"], T("int"))], results=PT, body=ok_body),
+        "grouped": dict(params=[F.Param(["a", "b"], T("int"))], results=PT, body=ok_body),
+        "variadic": dict(params=[F.Param(["ids"], ("ell", T("int")))], results=PT, body=ok_body),
+        "nobody": dict(params=[F.Param(["id"], T("int")), F.Param(["name"], T("string"))], results=PT, body=None),
+        "method": dict(params=[F.Param(["id"], T("int"))], results=None, body={"text": ""}, recv=[F.Param(["t"], F.tstar(T("T")))]),
+        "generic": dict(params=[F.Param(["id"], T("X"))], results=PT, body=ok_body, tparams="[X any]"),
+        "good": dict(params=[F.Param(["id"], T("int")), F.Param(["name"], T("string"))], results=PT,
+                     body={"text": "\treturn &T{ID: id, name: name}\n"}),
+    }
+    marker = _fn("ShootNew", [F.Param(["t"], T("T"))], [])
+    struct = _struct("T", [F.Field(["ID"], T("int")), F.Field(["name"], T("string"))])
+    plain_dest = [_file("d.go", [_struct("T", [F.Field(["ID"], T("int")), F.Field(["Name"], T("string"))])], pkg="dest", imports=())]
+    out = []
+    for name, sh in shapes.items():
+        fd = F.FDecl("NewT", sh.get("recv"), sh["params"], sh["results"], sh["body"])
+        if "tparams" in sh:
+            fd.tparams = sh["tparams"]
+        for side in ("src", "dest", "both"):
+            src = [struct] + ([marker, ("func", fd)] if side in ("src", "both") else [])
+            if side == "src":
+                dest = plain_dest
+            else:
+                dest = [_file("d.go", [struct, marker, ("func", fd)], pkg="dest", imports=())]
+            for args in (MAP_ARGS, ["map", "-path=../dest", "-file=s.go", "-way=toonly"]):
+                if args is not MAP_ARGS and side != "both":
+                    continue
+                c = _case("map", list(args), [_file("s.go", list(src))], dest)
+                c.labels = ["ctor:%s:%s" % (name, side)]
+                # a constructor that is found but odd (generic, variadic, grouped) goes into the generated call: the text is the oracle's
+                if name in ("generic", "variadic", "grouped", "blank", "unnamed", "noparams", "good"):
+                    c.uncertain = ["T"]
+                out.append(c)
+    # the name declared twice: a func without result next to a proper one
+    c = _case("map", list(MAP_ARGS), [_file("s.go", [struct, marker, ("func", F.FDecl("NewT", None, [], None, {"text": ""})),
+                                                   ("func", F.FDecl("NewT", None, shapes["good"]["params"], PT, shapes["good"]["body"]))])], plain_dest)
+    c.labels, c.uncertain = ["ctor:twice"], ["T"]
+    out.append(c)
     return out
 
 
